@@ -62,13 +62,12 @@ CLAIMS = {
         note=COMMON_NOTE + "Aliasing inside numpy/pandas/altair is not modelled; the theorem covers the five modelled "
              "helpers, the entry points are covered by fingerprints only (hence translation_validation).",
         tech="Lean 4 frame theorems on a heap model + AST-regenerated accumulator patterns + fingerprint correspondence"),
-    "C04": dict(level=TV, ref="§7 C04",
+    "C04": dict(level=PV, ref="§7 C04",
         text="Kernel-checked theorems about the model of to_incremental / to_cumulative: toCum_toInc (exact round trip "
              "for every well-formed cumulative triangle: order, dates, metadata, key order, values and value kinds; "
              "Cell becomes CumulativeCell), toInc_toCum (every complete incremental triangle), identity on the target "
              "basis, TriangleError on a broken chain and on key mismatch in either direction, toInc_row_spec_partial "
-             "(one increment per evaluation date per row, produced by the row function). One bridge statement "
-             "(toInc_row_spec to the lookup-based Bool Spec) is OPEN, hence translation_validation. Correspondence: "
+             "(one increment per evaluation date per row, produced by the row function). toInc_row_spec (bridge to the lookup-based Bool Spec); none open. Correspondence: "
              "dumps of both conversions incl. value kind and dtype, both round trips cell by cell on the "
              "implementation, Spec.toIncRowSpec (independent predecessor lookup) on its output, refusals for every "
              "one-link-removed / shifted variant.",
@@ -114,36 +113,38 @@ CLAIMS = {
              "proved. BufferedReader.peek/short-read semantics as modelled.",
         tech="Lean 4 proof (prefix-safety of a parser by per-class lemmas + induction over records) + all-offsets "
              "correspondence"),
-    "C07": dict(level=TV, ref="§7 C07",
+    "C07": dict(level=PV, ref="§7 C07",
         text="Model of triangle_to_dict and of the decoder (object_hook applied bottom-up to every object, "
              "_parse_cell_set, _parse_observation) over a JSON AST. Proved: ISO date round trip for every valid date "
-             "1000-9999, typed-kind lemmas, fromDict_toDict_partial (the round trip under two still-open structural "
-             "statements), kernel-evaluated concrete round trips, and witnesses that the stated domain restrictions "
-             "are real (risk_basis None, a field named 'cells'). Three statements OPEN. Correspondence: every export "
+             "1000-9999, typed-kind lemmas, fromDict_toDict_partial toDict_shape, fromDict_plain (any AST of that shape, however produced, loads to the described triangle) and "
+             "fromDict_toDict : WFjson t -> fromDict (toDict t) = ok (asTyped t) with no further hypotheses, concrete round trips, and witnesses that the stated domain restrictions "
+             "are real (risk_basis None, a field named 'cells'); none open. Correspondence: every export "
              "route against the model's AST via a plain json parser, every import route (string, handle, path, dict) "
              "against model, original and each other incl. Python class/dtype/int-vs-float/None/sample order, JSON "
              "text printed by the Lean driver and by an independent serializer loaded by the implementation.",
         note=COMMON_NOTE + "json text layer and float repr round trip trusted (exercised with non-dyadic floats in a "
              "separate stream). Domain (WFjson): risk_basis not None; keys avoid the hook's trigger names; years >= 1000.",
         tech="Lean 4 model of encoder/decoder over a JSON AST + differential correspondence through plain parsers"),
-    "C08": dict(level=TV, ref="§7 C08",
-        text="11 kernel-checked theorems about the model of aggregate: window_consecutive/window_step/window_spec, "
+    "C08": dict(level=PV, ref="§7 C08",
+        text="14 kernel-checked theorems about the model of aggregate: window_consecutive/window_step/window_spec, "
              "aggPeriod_cell_spec (exactly one output cell per slice, window and evaluation date that has a source "
              "cell; additive field = sum over the source cells of that slice and evaluation date inside the window), "
-             "aggPeriod_conserves (per slice, evaluation date, field and sample), aggPeriod_error_iff_straddle_partial, "
-             "aggEval_eq_filter, evalGrid_spec, aggregate_incremental_commutes. The full straddle iff is OPEN. "
+             "aggPeriod_conserves (per slice, evaluation date, field and sample), aggPeriod_error_iff_straddle (TriangleError "
+             "exactly when a cell crosses a window end, given the walk does not fail for another reason), "
+             "window_disjoint_month / window_disjoint_day, "
+             "aggEval_eq_filter, evalGrid_spec, aggregate_incremental_commutes; none open. "
              "Correspondence: dumps vs model for source resolutions 1/3/6/12 x target month/quarter/half-year/year x "
              "origins at any month end in a 9-year span, day/week resolutions on day-level triangles, with the Spec "
              "(closed-form windows, conservation, expectStraddle) on the implementation's output.",
         note=COMMON_NOTE + "Non-month-end origins with month units only in a separate stream compared against the model. "
              "Window disjointness relies on C12 date arithmetic (Spec evaluates the closed form on every output).",
         tech="Lean 4 theorems (sum over a partition) + differential correspondence"),
-    "C09": dict(level=TV, ref="§7 C09",
-        text="21 kernel-checked theorems: the rule table regenerated from /repo by probing each closure is re-proved on "
+    "C09": dict(level=PV, ref="§7 C09",
+        text="25 kernel-checked theorems: the rule table regenerated from /repo by probing each closure is re-proved on "
              "every run (additive_rules_bound: every additive field's rule is the sum of that same field; "
              "ratio_rules_bound: documented weights; rules_complete; non_loss_metrics_bound), summarize_cell_spec, "
              "summarize_conserves, gcd_keeps_exactly_shared, the three refusal theorems with their exception class, "
-             "no_premium_sum, summarize_ratio_spec (exact weighted average over Q). Three Bool-bridge statements OPEN. "
+             "no_premium_sum, summarize_ratio_spec (exact weighted average over Q), Spec bridges; none open. "
              "Correspondence with EVERY registered field name in the generator, 2-4 slices differing in any subset of "
              "attributes/details, both bases, summarize_premium both ways; conservation checked by the Spec on the "
              "implementation's output.",
